@@ -24,7 +24,12 @@ for p in props:
         "technique": m.get("technique", "Lean 4 proof + differential correspondence check"),
     })
     for f in m.get("findings", []):
-        findings.append(dict(f, property=pid))
+        f = dict(f, property=pid)
+        if f.get("status") == "fixed":
+            f["record"] = "fixed: property=%s %s %s" % (pid, str(f.get("commit", ""))[:12], f.get("what", ""))
+        else:
+            f["record"] = "known: property=%s signature=%s %s" % (pid, f.get("signature", ""), f.get("what", ""))
+        findings.append(f)
 hooks_commits = []
 hp = os.path.join(V, "meta", "hooks.json")
 if os.path.exists(hp):
